@@ -282,13 +282,14 @@ Qed.
 
 
 (* ---------------- the invariant between packets ---------------- *)
-Record OInv (st : rstate) (acc : list vitem) : Prop := {
+Record OAlive (st : rstate) (acc : list vitem) : Prop := {
   o_suffix : exists done, L0 = done ++ r_old st
              /\ (forall s, In s done -> exists it0, In it0 acc /\ compare_path (st_path s) (vpath it0) <> Gt);
   o_gt : forall s it0, In s (r_old st) -> In it0 acc -> compare_path (vpath it0) (st_path s) = Lt;
-  o_alive : live st = true -> r_closed st = false ->
+  o_alive : r_closed st = false ->
        prist (r_fs st) (r_rmdir st) (r_old st) /\ rm_ok (r_rmdir st) acc (r_old st)
 }.
+Definition OInv (st : rstate) (acc : list vitem) : Prop := live st = true -> OAlive st acc.
 
 Definition NInv (st : rstate) (acc : list vitem) : Prop := GInv D f0 tmps0 st acc /\ OInv st acc.
 
@@ -334,6 +335,7 @@ Record J (st : rstate) (old done : list stat) : Prop := {
   j_seen : r_seen st = seen';
   j_pipes : forall id pp, In (id, pp) (r_pipes st) -> In (pp_path pp) (accpaths acc);
   j_closed : r_closed st = false;
+  j_old : r_old st = old;
   j_split : L0 = done ++ old;
   j_done : forall s, In s done -> compare_path (st_path s) p = Lt;
   j_gt : forall s it0, In s old -> In it0 acc -> compare_path (vpath it0) (st_path s) = Lt;
@@ -368,7 +370,7 @@ Lemma suppressed_step st f1 rest done :
   J st (f1 :: rest) done -> compare_path (st_path f1) p = Lt ->
   J (set_diff st rest (r_rmdir st)) rest (done ++ [f1]).
 Proof.
-  intros Jv Hlt. pose proof (j_base _ _ _ Jv) as G. constructor; cbn [r_vstk r_seen r_pipes r_closed set_diff r_fs r_rmdir].
+  intros Jv Hlt. pose proof (j_base _ _ _ Jv) as G. constructor; cbn [r_vstk r_seen r_pipes r_closed r_old set_diff r_fs r_rmdir].
   - apply (GBase_quiet D f0 tmps0 st _ acc' b0 G); try (unfold b0; lia); simpl.
     + apply step_refl; [apply (g_wf D f0 tmps0 st acc' G)|apply (g_next D f0 tmps0 st acc' G)].
     + repeat split.
@@ -377,6 +379,7 @@ Proof.
   - apply Jv.
   - apply Jv.
   - apply Jv.
+  - reflexivity.
   - rewrite (j_split _ _ _ Jv), <- app_assoc. reflexivity.
   - intros s Hs. apply in_app_or in Hs. destruct Hs as [Hs|[<-|[]]]; [apply (j_done _ _ _ Jv s Hs)|exact Hlt].
   - intros s it0 Hs. apply (j_gt _ _ _ Jv). right. exact Hs.
@@ -431,6 +434,7 @@ Proof.
   - rewrite F2. apply Jv.
   - unfold st1. rewrite apply_change_del_pipes. apply (j_pipes _ _ _ Jv).
   - rewrite F5. apply Jv.
+  - rewrite F3. reflexivity.
   - rewrite (j_split _ _ _ Jv), <- app_assoc. reflexivity.
   - intros s Hs. apply in_app_or in Hs. destruct Hs as [Hs|[<-|[]]]; [apply (j_done _ _ _ Jv s Hs)|exact Hlt].
   - intros s it0 Hs. apply (j_gt _ _ _ Jv). right. exact Hs.
@@ -551,14 +555,14 @@ Proof.
       * apply (A2 q Hq Hs).
     + intros Hw. apply P3; [discriminate|apply wanted_solid; exact Hw].
   - (* the old listing *)
-    constructor.
+    intros L1. constructor.
     + exists done. rewrite F3. cbn [r_old st0 set_diff]. split; [apply Jv|].
       intros s Hs. exists it. split; [apply it_in_acc'|]. cbn [vpath it item_of]. fold p.
       rewrite (j_done _ _ _ Jv s Hs). discriminate.
     + rewrite F3. cbn [r_old st0 set_diff]. intros s it0 Hs Hin0. unfold acc' in Hin0.
       apply in_app_or in Hin0. destruct Hin0 as [Hin0|[<-|[]]]; [apply (j_gt _ _ _ Jv s it0 Hs Hin0)|].
       cbn [vpath it item_of]. fold p. apply (Hgt s Hs).
-    + intros L1 _. rewrite F3, F4. cbn [r_old r_rmdir st0 set_diff]. split; [|left; reflexivity].
+    + intros _. rewrite F3, F4. cbn [r_old r_rmdir st0 set_diff]. split; [|left; reflexivity].
       destruct (Hpost L1) as (L0' & P1 & P2 & P3).
       destruct (j_live _ _ _ Jv L0') as (A1 & A2 & A3 & A4).
       intros s Hs _.
@@ -630,7 +634,7 @@ Proof.
   (* the old-listing part of the invariant, for any state that kept [rest] and [rm] *)
   assert (HO : forall st', r_old st' = rest -> r_rmdir st' = rm ->
             (live st' = true -> prist (r_fs st') rm rest) -> OInv st' acc').
-  { intros st' E1 E2 Hp. constructor.
+  { intros st' E1 E2 Hp L. constructor.
     - exists (done ++ [f1]). rewrite E1. split; [rewrite (j_split _ _ _ Jv), <- app_assoc; reflexivity|].
       intros s Hs. exists it. split; [apply it_in_acc'|]. cbn [vpath it item_of]. fold p.
       apply in_app_or in Hs. destruct Hs as [Hs|[<-|[]]].
@@ -639,7 +643,7 @@ Proof.
     - rewrite E1. intros s it0 Hs Hin0. unfold acc' in Hin0. apply in_app_or in Hin0.
       destruct Hin0 as [Hin0|[<-|[]]]; [apply (j_gt _ _ _ Jv s it0 (or_intror Hs) Hin0)|].
       cbn [vpath it item_of]. fold p. apply (Hrest_gt s Hs).
-    - intros L _. rewrite E1, E2. split; [apply Hp; exact L|].
+    - intros _. rewrite E1, E2. split; [apply Hp; exact L|].
       unfold rm. destruct (st_is_dir f1 && negb (st_is_dir s2)) eqn:Erm; [right|left; reflexivity].
       exists p. rewrite Ep. split; [reflexivity|]. split; [exact Hok|]. split; [exact Hrest_gt|]. split.
       + intros it0 Hin0 E0. unfold acc' in Hin0. apply in_app_or in Hin0. destruct Hin0 as [Hin0|[<-|[]]].
@@ -746,6 +750,34 @@ Proof.
         unfold rm in Hsup'. rewrite Hdir1, Einp, Ep in Hsup'. cbn [negb andb] in Hsup'.
         rewrite (below_suppressed p (st_path s) Hok Hoks) in Hsup'; [discriminate|].
         exists y. split; auto.
+Qed.
+
+
+(* the writer died while the old entries were being deleted *)
+Lemma J_dead st old done : J st old done -> live st = false -> NInv st acc'.
+Proof.
+  intros Jv L. split.
+  - split; [apply Jv|]. intros H. congruence.
+  - intros H. congruence.
+Qed.
+
+Theorem diff_feed_inv : forall old st done, J st old done -> NInv (diff_feed c idx s2 old st) acc'.
+Proof.
+  induction old as [|f1 rest IH]; intros st done Jv; cbn [diff_feed].
+  - apply (final_add st [] done Jv). intros s [].
+  - fold p. destruct (compare_path (st_path f1) p) eqn:Ecmp.
+    + apply compare_path_eq in Ecmp. apply (final_eq st f1 rest done Jv Ecmp).
+    + destruct (suppressed (r_rmdir st) (st_path f1)) eqn:Es.
+      * apply (IH _ (done ++ [f1])). apply suppressed_step; auto.
+      * pose proof (delete_step st f1 rest done Jv Ecmp Es) as J1.
+        destruct (live (apply_change c idx 2 (st_path f1) f1 (set_diff st rest (rm_prefix_of f1)))) eqn:L1.
+        -- apply (IH _ (done ++ [f1]) J1).
+        -- apply (J_dead _ rest (done ++ [f1]) J1 L1).
+    + apply (final_add st (f1 :: rest) done Jv).
+      assert (H1 : compare_path p (st_path f1) = Lt) by (rewrite compare_path_opp, Ecmp; reflexivity).
+      intros s [<-|Hs]; [exact H1|].
+      apply (compare_path_trans p (st_path f1) (st_path s) H1).
+      apply (SS_cons_lt plt f1 rest s (old_sorted st (f1 :: rest) done Jv) Hs).
 Qed.
 
 End Feed.
